@@ -17,7 +17,7 @@ META = dict(
     assumptions=['REF-SEM tables (vlib/ref/sem.py) are the documented/literature tables',
                  'the registry lists every logic (compared with the static list of 57)'],
     min_events={'any': {'cells_checked': 1500, 'identities_checked': 1000, 'logics': 52}},
-    budget=dict(quick=1500, thorough=600),
+    budget=dict(quick=1500, thorough=7200),
 )
 
 IDENTITIES = {
